@@ -94,18 +94,43 @@ type CallSite struct {
 }
 
 type Prog struct {
-	Opts    LoadOpts
-	Fset    *token.FileSet
-	All     []*packages.Package
-	Own     []*packages.Package
-	ByPath  map[string]*packages.Package
-	SSA     *ssa.Program
-	Funcs   []*FuncInfo // every FuncDecl with a body in own code, sorted
-	funcIdx map[string]*FuncInfo
-	calls   []*CallSite
-	vta     *callgraph.Graph
-	chaG    *callgraph.Graph
-	nOwnFn  int
+	Opts     LoadOpts
+	Fset     *token.FileSet
+	All      []*packages.Package
+	Own      []*packages.Package
+	ByPath   map[string]*packages.Package
+	SSA      *ssa.Program
+	Funcs    []*FuncInfo // every FuncDecl with a body in own code, sorted
+	funcIdx  map[string]*FuncInfo
+	calls    []*CallSite
+	vta      *callgraph.Graph
+	chaG     *callgraph.Graph
+	nOwnFn   int
+	ssaSites map[*ssa.Function][]ssa.CallInstruction
+}
+
+// SSACallSites returns every static call of fn in own code (including calls from function literals).
+func (p *Prog) SSACallSites(fn *ssa.Function) []ssa.CallInstruction {
+	if p.ssaSites == nil {
+		p.ssaSites = map[*ssa.Function][]ssa.CallInstruction{}
+		for _, fi := range p.Funcs {
+			if fi.Lit != nil {
+				continue
+			}
+			sf := p.SSAFunc(fi)
+			if sf == nil {
+				continue
+			}
+			allInstrs(sf, true, func(in ssa.Instruction) {
+				if c, ok := in.(ssa.CallInstruction); ok {
+					if callee := c.Common().StaticCallee(); callee != nil {
+						p.ssaSites[callee] = append(p.ssaSites[callee], c)
+					}
+				}
+			})
+		}
+	}
+	return p.ssaSites[fn]
 }
 
 func goEnv(o LoadOpts) []string {
